@@ -33,14 +33,13 @@ use truc::{
             },
             DatumId, NativeDatumDetails, RecordDefinition,
         },
-        type_resolver::{HostTypeResolver, StaticTypeResolver, TypeResolver},
+        type_resolver::{HostTypeResolver, TypeResolver},
     },
 };
 
 #[path = "src/types.rs"]
 mod types;
 
-mod names;
 mod witness;
 
 // --------------------------------------------------------------------------
@@ -376,7 +375,6 @@ fn main() {
     println!("cargo:rerun-if-env-changed=CORPUS_NONCE");
     println!("cargo:rerun-if-changed=build.rs");
     println!("cargo:rerun-if-changed=enumerate.rs");
-    println!("cargo:rerun-if-changed=names.rs");
     println!("cargo:rerun-if-changed=witness.rs");
 
     // Panics of the code under analysis are caught and recorded; keep the log quiet.
@@ -399,9 +397,6 @@ fn main() {
     let mut index: Vec<Value> = Vec::new();
 
     match kind.as_str() {
-        "names" => {
-            names::emit(&out, thorough, shard_i, shard_n, &mut mods_rs, &mut index);
-        }
         "witness" => {
             let specs = witness::specs(thorough);
             emit_modules(&out, &specs, shard_i, shard_n, &mut mods_rs, &mut index, true);
